@@ -1,13 +1,34 @@
-"""C10 bounded stand-in: import statements resolved by jedi vs the file the interpreter really loads, over
-enumerated small directory trees (two sys.path roots, module / package / namespace package per node)."""
+"""C10 bounded stand-in: import statements resolved by jedi vs what the interpreter really loads.
+
+Two parts:
+ A. (legacy) enumerated two-root layouts of one node `a` (module / package / namespace package per root) with 9 import
+    forms;
+ B. seeded random project layouts: 1-3 sys.path roots in random order (entries optionally spelled with a trailing
+    separator, configured through Project(sys_path=), Project(added_sys_path=) or - one root - as the directory of a
+    default Project with smart_sys_path), directory trees of depth <= 4 over a
+    small name pool (so that siblings, nesting levels and sys.path roots clash), every node a module, a regular
+    package, a namespace package or a module AND a directory of the same name, package __init__.py / modules defining
+    functions, classes and strings under pool names and re-exporting names of children / siblings / other packages
+    (import chains); all import forms (import a.b, import a.b as c, from a import b [as c], from . import x,
+    from ..p import q, deeper levels, star) issued from a script outside sys.path, from a script in a root and from
+    modules and __init__.py files at every depth.
+
+The oracle is always a child interpreter that really executes the statement (in the namespace of the really imported
+importing module) and describes the live object bound to the name: a module's __file__, a namespace package's __path__,
+the code object of a function (file, line) or the location a class / string carries in its value."""
 import itertools
 import json
 import os
+import random
 import shutil
 import subprocess
 import sys
 import tempfile
 import traceback
+
+# --------------------------------------------------------------------------------------------------------------------
+# part A (legacy enumeration)
+# --------------------------------------------------------------------------------------------------------------------
 
 ORACLE = r'''
 import sys, json, importlib
@@ -59,7 +80,7 @@ def make_node(base, name, kind, child_kind, init_text):
         write(os.path.join(d, 'inner.py'), '')
 
 
-def layouts(tier):
+def layouts(tier, seed=1):
     kinds = ['absent', 'module', 'package', 'namespace']
     childs = ['absent', 'module', 'package']
     inits = ['', 'from . import b\n']
@@ -76,14 +97,13 @@ def layouts(tier):
                 for order in (0, 1):
                     out.append((k1, c1, k2, c2, init, order))
     if tier == 'quick':
-        # both sys.path orders where the roots compete (node `a` is a package or namespace portion in both roots);
-        # elsewhere one order per layout, alternating
-        keep = []
-        for i, l in enumerate(out):
-            compete = l[0] in ('package', 'namespace') and l[2] in ('package', 'namespace')
-            if compete or (i // 2 + l[5]) % 2 == 0:
-                keep.append(l)
-        out = keep
+        # all layouts where the roots compete (node `a` is a package or namespace portion in both roots) in a random
+        # half of the cases, a seeded random third of the rest
+        rng = random.Random('A:%s' % seed)
+        compete = [l for l in out if l[0] in ('package', 'namespace') and l[2] in ('package', 'namespace')]
+        rest = [l for l in out if l not in compete]
+        keep = set(rng.sample(compete, len(compete) // 2) + rng.sample(rest, len(rest) // 3))
+        out = [l for l in out if l in keep]
     return out
 
 
@@ -130,13 +150,11 @@ def check_layout(layout):
                     break
             qs = [q for q in QUERIES if not q[0] or inner_dir]
             p = subprocess.run([sys.executable, '-S', '-c', ORACLE, json.dumps([roots, qs])], capture_output=True,
-                               text=True, cwd=top, timeout=120)
+                               text=True, cwd=top, timeout=300)
             try:
                 oracle = json.loads(p.stdout.strip().splitlines()[-1])
             except Exception:
-                violations.append({'label': 'oracle failed', 'input': repr((k1, c1, k2, c2, init, order)),
-                                   'observed': p.stderr[-400:]})
-                return evaluations, violations, samples
+                raise RuntimeError('C10 oracle process failed for %r: %s' % (layout, p.stderr[-800:]))
             project = jedi.Project(top, sys_path=roots, smart_sys_path=False)
             for (ctx, stmt, name), want in zip(qs, oracle):
                 if want[0] in ('value', 'other'):
@@ -148,7 +166,6 @@ def check_layout(layout):
                 evaluations += 1
                 try:
                     s = jedi.Script(code, path=path, project=project)
-                    col = len(stmt) - len(name) if stmt.endswith(name) else stmt.index(name)
                     got_inf = s.infer(2, 0)
                     got_goto = s.goto(1, len(stmt) - 1, follow_imports=True)
                 except Exception:
@@ -166,7 +183,8 @@ def check_layout(layout):
                                 'input': repr({'stmt': stmt, 'from': os.path.relpath(path, top), 'roots': [os.path.basename(r) for r in roots],
                                                'r1': (k1, c1), 'r2': (k2, c2), 'init': init}),
                                 'observed': 'jedi %r, python %r' % ([os.path.relpath(f, top) for f in files],
-                                                                    os.path.relpath(want[1], top))})
+                                                                    os.path.relpath(want[1], top)),
+                                'kind': 'A:' + stmt})
                     elif want[0] == 'error' and want[1] == 'ModuleNotFoundError':
                         # (other ImportErrors, e.g. a relative import beyond the top-level package, are outside the
                         # property's clause: jedi documents a best-effort guess there)
@@ -175,13 +193,15 @@ def check_layout(layout):
                                 'label': '%s resolves an import that fails in the interpreter' % label,
                                 'input': repr({'stmt': stmt, 'roots': [os.path.basename(r) for r in roots],
                                                'r1': (k1, c1), 'r2': (k2, c2), 'init': init}),
-                                'observed': 'jedi %r, python %s' % ([str(n.module_path) for n in mods], want[1])})
+                                'observed': 'jedi %r, python %s' % ([str(n.module_path) for n in mods], want[1]),
+                                'kind': 'A:' + stmt})
                     elif want[0] == 'namespace':
                         if files:
                             violations.append({
                                 'label': '%s resolves a namespace package to a file' % label,
                                 'input': repr({'stmt': stmt, 'r1': (k1, c1), 'r2': (k2, c2)}),
-                                'observed': 'jedi %r' % files})
+                                'observed': 'jedi %r' % files,
+                                'kind': 'A:' + stmt})
             if len(samples) < 3:
                 samples.append({'r1': (k1, c1), 'r2': (k2, c2), 'init': init, 'order': order,
                                 'oracle': list(zip([q[1] for q in qs], oracle))[:4]})
@@ -190,22 +210,911 @@ def check_layout(layout):
     return evaluations, violations, samples
 
 
+# --------------------------------------------------------------------------------------------------------------------
+# part B (generated project layouts)
+# --------------------------------------------------------------------------------------------------------------------
+
+POOL = ['ka', 'kb', 'kc', 'kdd']        # names of modules / packages / namespace packages AND of attributes
+ATTRS = POOL + ['fa', 'fb']             # names of functions / classes / strings defined in modules
+SCRIPT_IN_ROOT = 'zmain'                # a script that lies directly in a sys.path root
+MAX_DOTTED = 4                          # depth bound of the property's quantifier
+# number of entries of a directory, by depth of the directory below the sys.path root
+COUNTS = {0: [1, 2, 2, 3], 1: [0, 1, 2, 2, 3], 2: [0, 1, 1, 2, 2], 3: [0, 1, 1, 2]}
+SHAPES = ['mod', 'pkg', 'ns', 'mod+pkg', 'mod+ns']
+SHAPE_WEIGHTS = [30, 38, 14, 10, 8]
+TAGS = ['circular re-export of the name',
+        'from . import name after a binding of that name in the same __init__',
+        'name bound in a star-imported module that star-imports it too',
+        'star import after an explicit binding of the same name',
+        'star-imported name that is also the name of a sub-module of the package']
+N_QUERIES = {'quick': 90, 'thorough': 140}
+N_LAYOUTS = {'quick': 120, 'thorough': 500}
+
+ORACLE_B = r'''
+import sys, json, importlib, importlib.util, importlib.machinery, os, types, ast, re
+sys.dont_write_bytecode = True
+cfg = json.loads(sys.stdin.readline())
+top = cfg['top']
+if cfg['mode'] == 'sys_path':
+    sys.path[:0] = cfg['roots']
+elif cfg['mode'] == 'smart':
+    # Project(<dir>): the directory of the project / script first, then the interpreter's own sys.path
+    sys.path[:] = cfg['roots'] + cfg['base_sys_path']
+else:
+    # Project(added_sys_path=...): the interpreter's own sys.path (without the script directory), then the roots
+    sys.path[:] = cfg['base_sys_path'] + cfg['roots']
+TOPS = set(cfg['tops'])
+saved = list(sys.path)
+sys.path[:] = [p for p in sys.path if p not in cfg['roots']]
+for t in sorted(TOPS):
+    if importlib.util.find_spec(t) is not None:
+        raise SystemExit('HARNESS: name %r of the pool is importable without the generated roots' % t)
+sys.path[:] = saved
+norm = os.path.normpath
+
+
+def fresh():
+    for m in [k for k in list(sys.modules) if k.split('.')[0] in TOPS]:
+        del sys.modules[m]
+
+
+def describe(obj):
+    if isinstance(obj, types.ModuleType):
+        f = getattr(obj, '__file__', None)
+        if f:
+            return ['file', norm(f)]
+        return ['namespace', [norm(p) for p in obj.__path__]]
+    if isinstance(obj, types.FunctionType):
+        return ['def', norm(obj.__code__.co_filename), obj.__code__.co_firstlineno, obj.__name__, 'function']
+    loc = None
+    kind = None
+    if isinstance(obj, type) and isinstance(vars(obj).get('LOC'), str):
+        loc, kind = vars(obj)['LOC'], 'class'
+    elif isinstance(obj, str):
+        loc, kind = obj, 'statement'
+    if loc is not None and loc.startswith('LOC:'):
+        _, rel, line, name = loc.split(':')
+        return ['def', norm(os.path.join(top, rel)), int(line), name, kind]
+    return ['value', type(obj).__name__]
+
+
+_parsed = {}
+
+
+def parsed(module):
+    if module.__file__ not in _parsed:
+        with open(module.__file__) as f:
+            _parsed[module.__file__] = ast.parse(f.read())
+    return _parsed[module.__file__]
+
+
+def star_source(module, node):
+    pkg = module.__name__ if hasattr(module, '__path__') else module.__name__.rpartition('.')[0]
+    try:
+        return sys.modules.get(importlib.util.resolve_name('.' * node.level + (node.module or ''), pkg))
+    except ImportError:
+        return None
+
+
+def binds(module, name, submodule_import_counts):
+    """does the code of `module` bind the global `name`?  (`from . import name` in a package __init__ binds the
+    sub-module itself and only counts if asked for)"""
+    for node in parsed(module).body:
+        if isinstance(node, (ast.FunctionDef, ast.ClassDef)) and node.name == name:
+            return True
+        if isinstance(node, ast.Assign) and any(isinstance(t, ast.Name) and t.id == name for t in node.targets):
+            return True
+        if isinstance(node, ast.Import) and any((a.asname or a.name.split('.')[0]) == name for a in node.names):
+            return True
+        if isinstance(node, ast.ImportFrom):
+            if node.level == 1 and not node.module and hasattr(module, '__path__') and not submodule_import_counts:
+                continue
+            for a in node.names:
+                if a.name == '*':
+                    src = star_source(module, node)
+                    if src is None or name in vars(src):
+                        return True
+                elif (a.asname or a.name) == name:
+                    return True
+    return False
+
+
+def implicit_star_copies():
+    """ids of sub-modules that some module of the tree got through `from package import *` although the code of
+    that package never binds them (they are attributes of the package only because they were imported before)"""
+    ids = set()
+    for name, x in list(sys.modules.items()):
+        if name.split('.')[0] not in TOPS or not getattr(x, '__file__', None):
+            continue
+        for node in parsed(x).body:
+            if isinstance(node, ast.ImportFrom) and any(a.name == '*' for a in node.names):
+                src = star_source(x, node)
+                if src is None or not getattr(src, '__file__', None):
+                    continue
+                for n, v in list(vars(src).items()):
+                    if isinstance(v, types.ModuleType) and v.__name__ == src.__name__ + '.' + n \
+                            and vars(x).get(n) is v and not binds(src, n, True):
+                        ids.add(id(v))
+    return ids
+
+
+def conflict(names):
+    """A package attribute and a sub-module of the same name were both bound while this process ran: Python lets
+    whichever was bound last win, i.e. the history of the process decides and no static answer exists.  (Only names
+    that occur in the statement: the files never rename what they re-export.)"""
+    for name, m in list(sys.modules.items()):
+        parent, _, child = name.rpartition('.')
+        if not parent or parent.split('.')[0] not in TOPS or child not in names:
+            continue
+        p = sys.modules.get(parent)
+        if p is None or not getattr(p, '__file__', None):
+            continue
+        if vars(p).get(child) is not m:
+            return [parent, child, 'the attribute was rebound after the sub-module was imported']
+        if binds(p, child, False):
+            return [parent, child, 'the sub-module import has overwritten an attribute']
+    return None
+
+
+def binds_explicitly(module, name):
+    for node in parsed(module).body:
+        if isinstance(node, (ast.FunctionDef, ast.ClassDef)) and node.name == name:
+            return True
+        if isinstance(node, ast.Assign) and any(isinstance(t, ast.Name) and t.id == name for t in node.targets):
+            return True
+        if isinstance(node, ast.Import) and any((a.asname or a.name.split('.')[0]) == name for a in node.names):
+            return True
+        if isinstance(node, ast.ImportFrom) and any((a.asname or a.name) == name for a in node.names):
+            return True
+    return False
+
+
+SCRIPT = types.ModuleType('__main__')
+
+
+def order_quirks(names, importer, stmt):
+    """Files that bind one of the names twice in a way where only the order of the statements decides (jedi lets the
+    last explicit binding win and looks at star imports last): reported under labels of their own.  The statement
+    counts as the last line of the importing file."""
+    tags = set()
+    bodies = [(x, parsed(x).body + (ast.parse(stmt).body if mname == importer else []))
+              for mname, x in list(sys.modules.items())
+              if mname.split('.')[0] in TOPS and getattr(x, '__file__', None)]
+    if importer is None:
+        bodies.append((SCRIPT, ast.parse(stmt).body))
+    # (module, name) -> (module, name) it is imported from
+    edges = {}
+    for x, body in bodies:
+        for node in body:
+            if isinstance(node, ast.ImportFrom):
+                src = star_source(x, node)
+                if src is None or src is x:
+                    # (`from . import sub` in a package __init__ binds the sub-module, it is no re-export)
+                    continue
+                for a in node.names:
+                    if a.name == '*':
+                        for n in names:
+                            if n in vars(src):
+                                edges.setdefault((x.__name__, n), set()).add((src.__name__, n))
+                    elif a.name in names:
+                        edges.setdefault((x.__name__, a.asname or a.name), set()).add((src.__name__, a.name))
+    for start in sorted(edges):
+        seen, todo = set(), [start]
+        while todo:
+            for nxt in edges.get(todo.pop(), ()):
+                if nxt == start:
+                    tags.add('circular re-export of the name')
+                if nxt not in seen:
+                    seen.add(nxt)
+                    todo.append(nxt)
+    for x, body in bodies:
+        explicit = set()
+        for node in body:
+            if isinstance(node, (ast.FunctionDef, ast.ClassDef)):
+                explicit.add(node.name)
+            elif isinstance(node, ast.Assign):
+                explicit.update(t.id for t in node.targets if isinstance(t, ast.Name))
+            elif isinstance(node, ast.Import):
+                explicit.update(a.asname or a.name.split('.')[0] for a in node.names)
+            elif isinstance(node, ast.ImportFrom):
+                for a in node.names:
+                    if a.name == '*':
+                        src = star_source(x, node)
+                        if src is not None and any(n in names and n in vars(src) for n in explicit):
+                            tags.add('star import after an explicit binding of the same name')
+                        if src is not None and hasattr(x, '__path__') and any(
+                                n in vars(src) and importlib.machinery.PathFinder.find_spec(n, list(x.__path__))
+                                for n in sorted(names)):
+                            tags.add('star-imported name that is also the name of a sub-module of the package')
+                        if src is not None and getattr(src, '__file__', None):
+                            # x: from src import *;  src: from deeper import * and an own binding of the name
+                            own = {n for n in names if binds_explicitly(src, n)}
+                            for inner in parsed(src).body:
+                                if isinstance(inner, ast.ImportFrom) and any(b.name == '*' for b in inner.names):
+                                    deeper = star_source(src, inner)
+                                    if deeper is not None and any(n in vars(deeper) for n in own):
+                                        tags.add('name bound in a star-imported module that star-imports it too')
+                    else:
+                        n = a.asname or a.name
+                        if hasattr(x, '__path__') and n in explicit and n in names and (
+                                node.level == 1 and not node.module or star_source(x, node) is x):
+                            # (also spelled absolutely: from <this package> import name)
+                            tags.add('from . import name after a binding of that name in the same __init__')
+                        explicit.add(n)
+    return sorted(tags)
+
+
+# ---- phase 1: which files / dotted names can be imported, and which public names do the modules have
+files = []
+for path, dotted in cfg['files']:
+    fresh()
+    try:
+        m = importlib.import_module(dotted)
+    except ImportError as e:
+        files.append(['error', type(e).__name__ + ': ' + str(e)])
+    else:
+        f = getattr(m, '__file__', None)
+        files.append(['ok', norm(f) if f else None])
+paths = {}
+for dotted in cfg['paths']:
+    fresh()
+    try:
+        m = importlib.import_module(dotted)
+    except ImportError as e:
+        paths[dotted] = None
+    else:
+        paths[dotted] = {'kind': 'file' if getattr(m, '__file__', None) else 'namespace',
+                         'names': sorted(n for n in vars(m) if not n.startswith('_'))}
+print('ORACLE-B1 ' + json.dumps({'files': files, 'paths': paths}))
+sys.stdout.flush()
+
+# ---- phase 2: the statements
+out = []
+for importer, stmt, usage, wanted, frompart in json.loads(sys.stdin.readline()):
+    fresh()
+    if importer is None:
+        ns = {'__name__': '__main__', '__package__': None, '__builtins__': __builtins__}
+    else:
+        try:
+            ns = importlib.import_module(importer).__dict__
+        except ImportError as e:
+            out.append(['importer-failed', type(e).__name__ + ': ' + str(e)])
+            continue
+    try:
+        exec(stmt, ns)
+        obj = eval(usage, ns)
+    except ModuleNotFoundError as e:
+        # only the failure of the queried import itself counts, not a broken import inside a module of the tree
+        if e.name is not None and (wanted == e.name or wanted.startswith(e.name + '.')):
+            out.append(['error', 'ModuleNotFoundError', e.name])
+        else:
+            out.append(['other', 'nested ModuleNotFoundError: ' + str(e)])
+        continue
+    except ImportError as e:
+        out.append(['error', type(e).__name__, str(e)])
+        continue
+    except (NameError, AttributeError) as e:
+        out.append(['other', type(e).__name__ + ': ' + str(e)])     # the name is not bound by the statement
+        continue
+    res = describe(obj)
+    names = set(re.findall(r'\w+', stmt + ' ' + usage))
+    q = conflict(names)
+    if q:
+        res = ['conflict', q]
+    elif stmt.endswith('*') and isinstance(obj, types.ModuleType) and obj.__name__ == wanted + '.' + usage \
+            and getattr(sys.modules[wanted], '__file__', None) and not binds(sys.modules[wanted], usage, True):
+        # a star import also copies the sub-modules that happen to be imported already, although the code of
+        # the package never binds them: again the history of the process
+        res = ['conflict', [wanted, usage, 'sub-module that is only implicitly an attribute of the package']]
+    elif isinstance(obj, types.ModuleType) and id(obj) in implicit_star_copies():
+        res = ['conflict', [obj.__name__, usage, 'sub-module that a star import copied although no code binds it']]
+    out.append(res)
+    if res[0] != 'conflict':
+        res.append({'from': describe(sys.modules[wanted]) if frompart and wanted in sys.modules else None,
+                    'tags': order_quirks(names, importer, stmt)})
+print('ORACLE-B2 ' + json.dumps(out))
+sys.stdout.flush()
+'''
+
+
+def _gen_root(rng, rootname):
+    """One sys.path root.  Returns (files {path relative to top: text}, dirs, dotted names spelled by the paths below
+    this root, list of (relative path, dotted name) of the files that win inside this root)."""
+    files = {}
+    dirs = set()
+    info = {}           # dotted -> {'kind', 'exports'} for the entry that wins inside this root
+    earlier = []        # dotted names of this root generated so far (only these are imported by later files)
+    file_list = []
+
+    def content(rel, dotted, is_init, children):
+        package = dotted if is_init else dotted[:-1]
+        cands = []      # (statement, bound names)
+        if is_init:
+            local = [(c, dotted + (c,)) for c in children]
+        else:
+            local = [(e[-1], e) for e in earlier if len(e) == len(dotted) and e[:-1] == dotted[:-1] and package]
+        for name, full in local:
+            cands.append(('from . import %s' % name, {name}))
+            ex = sorted(info[full]['exports'])
+            if ex:
+                n = rng.choice(ex)
+                cands.append(('from .%s import %s' % (name, n), {n}))
+                cands.append(('from .%s import %s' % (name, n), {n}))
+                cands.append(('from .%s import *' % name, set(ex)))
+        if len(package) >= 2:
+            for e in earlier:
+                if len(e) == len(package) and e[:-1] == package[:-1] and e != package:
+                    cands.append(('from .. import %s' % e[-1], {e[-1]}))
+                    ex = sorted(info[e]['exports'])
+                    if ex:
+                        n = rng.choice(ex)
+                        cands.append(('from ..%s import %s' % (e[-1], n), {n}))
+        if earlier:
+            for e in rng.sample(earlier, min(2, len(earlier))):
+                if e == package or e == dotted:
+                    continue
+                ex = sorted(info[e]['exports'])
+                if ex:
+                    n = rng.choice(ex)
+                    cands.append(('from %s import %s' % ('.'.join(e), n), {n}))
+                if len(e) >= 2:
+                    cands.append(('from %s import %s' % ('.'.join(e[:-1]), e[-1]), {e[-1]}))
+                cands.append(('import %s' % '.'.join(e), {e[0]}))
+        n_imp = rng.choices([0, 1, 2], weights=[30, 45, 25] if is_init else [45, 40, 15])[0]
+        imports = rng.sample(cands, min(n_imp, len(cands)))
+        n_def = rng.choices([0, 1, 2], weights=[30, 45, 25])[0]
+        defs = [(n, rng.choice(['function', 'class', 'statement'])) for n in rng.sample(ATTRS, n_def)]
+        parts = [('import', i) for i in imports] + [('def', d) for d in defs]
+        if rng.random() < 0.5:
+            parts.reverse()
+        if rng.random() < 0.3:
+            rng.shuffle(parts)
+        lines = []
+        exports = set()
+        for kind, p in parts:
+            if kind == 'import':
+                lines.append(p[0])
+                exports |= p[1]
+            else:
+                name, what = p
+                loc = 'LOC:%s:%d:%s' % (rel, len(lines) + 1, name)
+                if what == 'function':
+                    lines.append('def %s(): return 0' % name)
+                elif what == 'class':
+                    lines.append("class %s: LOC = '%s'" % (name, loc))
+                else:
+                    lines.append("%s = '%s'" % (name, loc))
+                exports.add(name)
+        return ''.join(l + '\n' for l in lines), exports
+
+    def gen_dir(rel, dotted, small):
+        """fills the directory `rel` that spells the dotted prefix `dotted`; returns the names of the entries that
+        can be imported from it"""
+        depth = len(dotted)
+        count = rng.choice([0, 1]) if small else rng.choice(COUNTS[depth])
+        names = sorted(rng.sample(POOL, count), key=lambda n: rng.random())
+        winners = []
+        for name in names:
+            full = dotted + (name,)
+            shape = 'mod' if len(full) >= MAX_DOTTED or small else rng.choices(SHAPES, weights=SHAPE_WEIGHTS)[0]
+            sub = os.path.join(rel, name)
+            if 'pkg' in shape or 'ns' in shape:
+                dirs.add(sub)
+                mark = len(earlier)
+                # (a directory that is shadowed by a module of the same name stays small)
+                children = gen_dir(sub, full, shape == 'mod+ns')
+                if shape == 'mod+ns':
+                    # the module shadows the directory: nothing below it can be imported (the files exist)
+                    del earlier[mark:]
+                if 'pkg' in shape:
+                    init_rel = os.path.join(sub, '__init__.py')
+                    text, exports = content(init_rel, full, True, children)
+                    files[init_rel] = text
+                    file_list.append((init_rel, full))
+                    info[full] = {'kind': 'pkg', 'exports': exports}
+                else:
+                    info[full] = {'kind': 'ns', 'exports': set()}
+            if 'mod' in shape:
+                mod_rel = sub + '.py'
+                # a package shadows the module of the same name: the module cannot be imported, but the file exists
+                shadowed = 'pkg' in shape
+                saved = info.get(full)
+                text, exports = content(mod_rel, full, False, [])
+                files[mod_rel] = text
+                if shadowed:
+                    info[full] = saved
+                else:
+                    info[full] = {'kind': 'mod', 'exports': exports}
+                    file_list.append((mod_rel, full))
+            earlier.append(full)
+            winners.append(name)
+        return winners
+
+    gen_dir(rootname, (), False)
+    return files, dirs, sorted(info), file_list
+
+
+def gen_layout(seed, index):
+    """the project: files, directories, sys.path configuration (no statements yet)"""
+    rng = random.Random('B:%s:%s' % (seed, index))
+    n_roots = rng.choice([1, 2, 2, 2, 3])
+    rootnames = ['r%d' % (i + 1) for i in range(n_roots)]
+    files, dirs, paths, file_list = {}, set(), set(), []
+    for r in rootnames:
+        f, d, spelled, fl = _gen_root(rng, r)
+        files.update(f)
+        dirs |= d
+        dirs.add(r)
+        paths.update(spelled)
+        file_list += fl
+    script_root = rng.choice(rootnames)
+    files[os.path.join(script_root, SCRIPT_IN_ROOT + '.py')] = ''
+    file_list.append((os.path.join(script_root, SCRIPT_IN_ROOT + '.py'), (SCRIPT_IN_ROOT,)))
+    order = list(rootnames)
+    rng.shuffle(order)
+    spelling = {r: rng.choices(['', os.sep], weights=[65, 35])[0] for r in rootnames}
+    mode = rng.choices(['sys_path', 'added_sys_path'], weights=[75, 25])[0]
+    if n_roots == 1 and rng.random() < 0.25:
+        # the default configuration: Project(<directory>) with smart_sys_path, the project directory is the root
+        mode = 'smart'
+        spelling = {r: '' for r in rootnames}
+    return {'index': index, 'roots': [r + spelling[r] for r in order], 'mode': mode, 'files': files,
+            'dirs': sorted(dirs), 'file_list': [(rel, '.'.join(dotted)) for rel, dotted in file_list],
+            'paths': ['.'.join(p) for p in sorted(paths)]}
+
+
+def gen_queries(seed, layout, facts, n_queries):
+    """Import statements for the project.  `facts` are the answers of the interpreter about the project (which files
+    it loads under which name, which dotted names can be imported, the public names of every module); they only steer
+    the sampling towards statements that bind something."""
+    rng = random.Random('Q:%s:%s' % (seed, layout['index']))
+    all_paths = [tuple(p.split('.')) for p in layout['paths']]
+    ok_paths = [p for p in all_paths if facts['paths'].get('.'.join(p))]
+    bad_paths = [p for p in all_paths if not facts['paths'].get('.'.join(p))]
+    importers = [(rel, tuple(dotted.split('.'))) for (rel, dotted), ok in zip(layout['file_list'], facts['importable'])
+                 if ok]
+    inside = [(rel, dotted) for rel, dotted in importers
+              if len(dotted) > 1 or rel.endswith('__init__.py')]
+    if layout['mode'] == 'smart':
+        # smart_sys_path appends every directory without __init__.py between the project and the edited file to
+        # sys.path (it takes them for script directories, a documented heuristic that namespace packages defeat):
+        # only from files below regular packages does jedi search exactly the interpreter's sys.path
+        def regular(rel):
+            d = os.path.dirname(rel)
+            while os.sep in d:
+                if os.path.join(d, '__init__.py') not in layout['files']:
+                    return False
+                d = os.path.dirname(d)
+            return True
+        inside = [(rel, dotted) for rel, dotted in inside if regular(rel)]
+        # ... and for inference it also appends the package directories themselves (GH #1446), where a module can
+        # win against a namespace package of the project directory: relative imports are left to the other modes
+        inside = []
+
+    def names_of(path):
+        f = facts['paths'].get('.'.join(path))
+        return f['names'] if f else []
+
+    def children_of(path):
+        return sorted({p[len(path)] for p in all_paths if len(p) > len(path) and p[:len(path)] == path})
+
+    def some_path(near_miss):
+        r = rng.random()
+        if ok_paths and r >= near_miss:
+            return rng.choice(ok_paths)
+        if bad_paths and r < near_miss / 2:
+            return rng.choice(bad_paths)        # spelled by some directory entry, but not importable (shadowed)
+        prefix = rng.choice([()] + [p for p in all_paths if len(p) < MAX_DOTTED])
+        return prefix + (rng.choice(POOL),)
+
+    def some_attr(path):
+        r = rng.random()
+        names, kids = names_of(path), children_of(path)
+        if names and r < 0.5:
+            return rng.choice(names)
+        if kids and r < 0.85:
+            return rng.choice(kids)
+        return rng.choice(ATTRS)
+
+    forms = ['import', 'import as', 'from', 'from', 'from as', 'star', 'rel', 'rel', 'rel as', 'rel mod', 'rel mod',
+             'rel mod as', 'rel star']
+    queries = []
+    seen = set()
+    for _ in range(n_queries * 4):
+        if len(queries) >= n_queries:
+            break
+        form = rng.choice(forms)
+        if form.startswith('rel'):
+            if not inside:
+                continue
+            rel, dotted = rng.choice(inside)
+            package = dotted if rel.endswith('__init__.py') else dotted[:-1]
+            level = rng.randint(1, len(package))
+            base = package[:len(package) - level + 1]
+            dots = '.' * level
+            if form in ('rel', 'rel as'):
+                name = some_attr(base)
+                wanted = base
+                q = ('from %s import %s' % (dots, name), name) if form == 'rel' else \
+                    ('from %s import %s as zz' % (dots, name), 'zz')
+            else:
+                kids = [p for p in ok_paths if len(base) < len(p) <= len(base) + 2 and p[:len(base)] == base]
+                if kids and rng.random() < 0.85:
+                    target = rng.choice(kids)
+                else:
+                    target = base + (rng.choice(POOL),)
+                wanted = target
+                sub = '.'.join(target[len(base):])
+                name = some_attr(target)
+                if form == 'rel mod':
+                    q = ('from %s%s import %s' % (dots, sub, name), name)
+                elif form == 'rel mod as':
+                    q = ('from %s%s import %s as zz' % (dots, sub, name), 'zz')
+                else:
+                    q = ('from %s%s import *' % (dots, sub), name)
+            importer = (rel, dotted)
+        else:
+            if layout['mode'] == 'smart':
+                # (smart_sys_path also adds the directories between the project and the edited file: only the
+                # script in the project directory sees exactly the interpreter's sys.path)
+                importer = [(rel, dotted) for rel, dotted in importers if dotted == (SCRIPT_IN_ROOT,)][0]
+            elif rng.random() < 0.35 or not importers:
+                importer = ('main.py', None)
+            else:
+                importer = rng.choice(importers)
+            if form in ('import', 'import as'):
+                target = some_path(0.2)
+                wanted = target
+                t = '.'.join(target)
+                q = ('import ' + t, t) if form == 'import' else ('import %s as zz' % t, 'zz')
+            else:
+                target = some_path(0.12)
+                wanted = target
+                name = some_attr(target)
+                t = '.'.join(target)
+                if form == 'from':
+                    q = ('from %s import %s' % (t, name), name)
+                elif form == 'from as':
+                    q = ('from %s import %s as zz' % (t, name), 'zz')
+                else:
+                    q = ('from %s import *' % t, name)
+        frompart = form in ('from', 'from as', 'star', 'rel mod', 'rel mod as', 'rel star')
+        if form not in ('import', 'import as') and importer[1] is not None and tuple(wanted) == tuple(importer[1]):
+            # a module that imports a name from itself: the bound name shadows the definition it refers to
+            continue
+        bound = q[1].split('.')[0]
+        if importer[1] is not None:
+            if bound in names_of(importer[1]):
+                # the statement would rebind a name that the importing module has already: which binding other
+                # modules (and, for a star import, the file itself) see is a question of statement order
+                continue
+            if importer[0].endswith('__init__.py') and bound in children_of(importer[1]):
+                # (nor a name bound in a package __init__ that is also the name of a sub-module of that package)
+                continue
+        key = (importer[0], q)
+        if key in seen:
+            continue
+        seen.add(key)
+        queries.append({'importer': importer[0], 'dotted': '.'.join(importer[1]) if importer[1] else None,
+                        'stmt': q[0], 'usage': q[1], 'form': form, 'wanted': '.'.join(wanted), 'frompart': frompart})
+    return queries
+
+
+def _describe_layout(layout, importer, stmt, usage):
+    return repr({'sys.path': layout['roots'], 'mode': layout['mode'], 'from': importer, 'stmt': stmt, 'use': usage,
+                 'files': {k: v for k, v in sorted(layout['files'].items())},
+                 'empty dirs': [d for d in layout['dirs']
+                                if not any(f.startswith(d + os.sep) for f in layout['files'])]})
+
+
+def _names(got, top):
+    out = []
+    for n in got:
+        p = n.module_path
+        out.append((n.type, os.path.relpath(str(p), top) if p is not None else None, n.line, n.name))
+    return sorted(out, key=repr)
+
+
+def _ns_paths(n):
+    """directories of a namespace package result (there is no public attribute for them)"""
+    value = getattr(getattr(n, '_name', None), '_value', None)
+    get = getattr(value, 'py__path__', None)
+    if get is None:
+        return None
+    return [os.path.normpath(str(p)) for p in get()]
+
+
+class _Oracle:
+    """the child interpreter of one project"""
+
+    def __init__(self, layout, top, cfg):
+        self.err = tempfile.TemporaryFile(mode='w+', dir=os.environ['STANDIN_TMP'])
+        flags = ['-B', '-S']
+        env = dict(os.environ)
+        env.pop('PYTHONSTARTUP', None)
+        self.what = 'layout %s' % layout['index']
+        self.p = subprocess.Popen([sys.executable] + flags + ['-c', ORACLE_B], stdin=subprocess.PIPE,
+                                  stdout=subprocess.PIPE, stderr=self.err, text=True, cwd=top, env=env)
+        self.send(cfg)
+
+    def send(self, obj):
+        try:
+            self.p.stdin.write(json.dumps(obj) + '\n')
+            self.p.stdin.flush()
+        except OSError:
+            self.fail('cannot write')
+
+    def fail(self, why):
+        self.p.kill()
+        self.p.wait()
+        self.err.seek(0)
+        raise RuntimeError('C10 oracle process failed (%s, %s): %s' % (self.what, why, self.err.read()[-1500:]))
+
+    def answer(self, tag):
+        while True:
+            line = self.p.stdout.readline()
+            if not line:
+                self.fail('no %s answer' % tag)
+            if line.startswith(tag + ' '):
+                return json.loads(line[len(tag) + 1:])
+
+    def close(self):
+        try:
+            self.p.stdin.close()
+        except OSError:
+            pass
+        if self.p.poll() is None:
+            try:
+                self.p.wait(timeout=60)
+            except subprocess.TimeoutExpired:
+                self.p.kill()
+                self.p.wait()
+        self.p.stdout.close()
+        self.err.close()
+
+
+def check_generated(args):
+    import jedi
+    from parso.cache import parser_cache
+    seed, index, tier, base_sys_path = args
+    layout = gen_layout(seed, index)
+    violations = []
+    evaluations = 0
+    top = tempfile.mkdtemp(prefix='gen_', dir=os.environ['STANDIN_TMP'])
+    oracle = None
+    try:
+        for d in layout['dirs']:
+            os.makedirs(os.path.join(top, d), exist_ok=True)
+        for rel, text in layout['files'].items():
+            write(os.path.join(top, rel), text)
+        roots = [os.path.join(top, r) for r in layout['roots']]
+        cfg = {'top': top, 'roots': roots, 'mode': layout['mode'], 'tops': POOL + [SCRIPT_IN_ROOT],
+               'base_sys_path': base_sys_path,
+               'files': [[os.path.join(top, rel), dotted] for rel, dotted in layout['file_list']],
+               'paths': sorted(set(layout['paths']) | {d for _, d in layout['file_list']})}
+        oracle = _Oracle(layout, top, cfg)
+        facts = oracle.answer('ORACLE-B1')
+        facts['importable'] = [res[0] == 'ok' and res[1] == os.path.normpath(os.path.join(top, rel))
+                               for (rel, dotted), res in zip(layout['file_list'], facts['files'])]
+        queries = gen_queries(seed, layout, facts, N_QUERIES.get(tier, N_QUERIES['quick']))
+        oracle.send([[q['dotted'], q['stmt'], q['usage'], q['wanted'], q['frompart']] for q in queries])
+        answers = oracle.answer('ORACLE-B2')
+        oracle.close()
+        oracle = None
+        if len(answers) != len(queries):
+            raise RuntimeError('C10 harness: %d answers for %d statements' % (len(answers), len(queries)))
+        if layout['mode'] == 'sys_path':
+            project = jedi.Project(top, sys_path=roots, smart_sys_path=False)
+        elif layout['mode'] == 'smart':
+            project = jedi.Project(roots[0])
+        else:
+            project = jedi.Project(top, added_sys_path=roots, smart_sys_path=False)
+
+        # ---- clause: the dotted name jedi derives for a file on sys.path imports back to that file
+        for (rel, dotted), ok in zip(layout['file_list'], facts['importable']):
+            if not ok:
+                # a file that is shadowed by another sys.path entry or by a package / module of the same name cannot
+                # be imported under any name: the clause says nothing about it
+                continue
+            path = os.path.join(top, rel)
+            evaluations += 1
+            try:
+                parser_cache.clear()
+                s = jedi.Script(layout['files'][rel] + 'zz = 1\n', path=path, project=project)
+                full_names = [n.full_name for n in s.get_names() if n.name == 'zz']
+            except Exception:
+                violations.append({'label': 'query raised', 'input': _describe_layout(layout, rel, 'zz = 1', 'zz'),
+                                   'observed': traceback.format_exc(limit=3), 'kind': 'dotted'})
+                continue
+            if len(full_names) != 1 or not (full_names[0] or '').endswith('.zz'):
+                raise RuntimeError('C10 harness: no full_name for the probe name in %s: %r' % (rel, full_names))
+            derived = full_names[0][:-len('.zz')]
+            if derived != dotted:
+                violations.append({
+                    'label': 'dotted name derived for a file does not import back to it',
+                    'input': _describe_layout(layout, rel, 'zz = 1', 'zz'),
+                    'observed': 'jedi derives %r for %s; the interpreter loads this file as %r' % (derived, rel, dotted),
+                    'kind': 'dotted:%s' % ('init' if rel.endswith('__init__.py') else 'module')})
+
+        # ---- clause: an import statement resolves to what the interpreter binds
+        for q, want in zip(queries, answers):
+            if want[0] in ('value', 'other', 'importer-failed', 'conflict'):
+                continue
+            if want[0] == 'error' and want[1] != 'ModuleNotFoundError':
+                continue        # cannot import name / beyond top-level package / circular: outside the clause
+            body = layout['files'].get(q['importer'], '')
+            code = body + q['stmt'] + '\n' + q['usage'] + '\n'
+            line = body.count('\n') + 1
+            path = os.path.join(top, q['importer'])
+            star = q['form'].endswith('star')
+            failing = want[0] == 'error'
+            q_tags = [] if failing else want[-1]['tags']
+            evaluations += 1
+            try:
+                # (jedi keeps the text given for a path as the content of that module for later imports of it, as an
+                # editor buffer; the statements of this stand-in are independent experiments)
+                parser_cache.clear()
+                s = jedi.Script(code, path=path, project=project)
+                results = []
+                if not failing:
+                    # (when the import fails, the name at the use may be bound by the text of the file itself)
+                    col = len(q['usage']) - 1
+                    results += [('infer', 'use', want, s.infer(line + 1, col)),
+                                ('goto(follow_imports)', 'use', want, s.goto(line + 1, col, follow_imports=True))]
+                if not star:
+                    col = len(q['stmt']) - 1
+                    results += [('infer', 'statement', want, s.infer(line, col)),
+                                ('goto(follow_imports)', 'statement', want, s.goto(line, col, follow_imports=True))]
+                if q['frompart']:
+                    # the module named by the from-part
+                    col = q['stmt'].index(' import ') - 1
+                    fwant = want if failing else want[-1]['from']
+                    if fwant is not None:
+                        results += [('infer', 'from-part', fwant, s.infer(line, col)),
+                                    ('goto(follow_imports)', 'from-part', fwant,
+                                     s.goto(line, col, follow_imports=True))]
+            except Exception:
+                violations.append({'label': 'query raised',
+                                   'input': _describe_layout(layout, q['importer'], q['stmt'], q['usage']),
+                                   'observed': traceback.format_exc(limit=3), 'kind': q['form']})
+                continue
+            finally:
+                parser_cache.clear()
+            where = 'script' if q['dotted'] is None else \
+                'init' if q['importer'].endswith('__init__.py') else 'module'
+            for label, pos, want, got in results:
+                bad = None
+                mods = [n for n in got if n.type in ('module', 'namespace')]
+                shown = _names(got, top)
+                if want[0] == 'file':
+                    files = sorted({os.path.normpath(str(n.module_path)) for n in mods if n.module_path is not None})
+                    if files != [want[1]] or len(mods) != len(got):
+                        bad = ('%s resolves an import to a different file than the interpreter' % label,
+                               'python: module %s' % os.path.relpath(want[1], top))
+                elif want[0] == 'namespace':
+                    files = sorted({str(n.module_path) for n in mods if n.module_path is not None})
+                    if files:
+                        bad = ('%s resolves a namespace package to a file' % label,
+                               'python: namespace %r' % [os.path.relpath(p, top) for p in want[1]])
+                    else:
+                        dirs = [_ns_paths(n) for n in got if n.type == 'namespace']
+                        if not got or len(dirs) != len(got) or any(
+                                d is not None and set(d) != set(want[1]) for d in dirs):
+                            bad = ('%s resolves a namespace package to different directories' % label,
+                                   'python: namespace %r, jedi: %r' % (
+                                       [os.path.relpath(p, top) for p in want[1]],
+                                       [d and [os.path.relpath(p, top) for p in d] for d in dirs]))
+                elif want[0] == 'def':
+                    wfile, wline, wname, wkind = want[1:5]
+                    if label == 'infer' and wkind == 'statement':
+                        # the value of a string assignment is an instance of str; it only must not be a module
+                        if mods:
+                            bad = ('%s resolves an imported name to a different definition than the interpreter'
+                                   % label, 'python: string defined at %s:%d' % (os.path.relpath(wfile, top), wline))
+                    else:
+                        have = sorted((os.path.normpath(str(n.module_path)), n.line, n.name) for n in got
+                                      if n.module_path is not None)
+                        if have != [(wfile, wline, wname)] or len(have) != len(got):
+                            bad = ('%s resolves an imported name to a different definition than the interpreter'
+                                   % label, 'python: %s %s defined at %s:%d'
+                                   % (wkind, wname, os.path.relpath(wfile, top), wline))
+                elif want[0] == 'error':   # ModuleNotFoundError
+                    if mods:
+                        bad = ('%s resolves an import that fails in the interpreter' % label,
+                               'python: ModuleNotFoundError for %s' % want[2])
+                else:
+                    raise RuntimeError('C10 harness: unexpected oracle answer %r' % (want,))
+                if bad:
+                    # (one suffix only, so that the labels stay few: the first in the order of TAGS)
+                    tags = [t for t in TAGS if t in q_tags][:1]
+                    if len(tags) < min(1, len(q_tags)):
+                        raise RuntimeError('C10 harness: unknown tag in %r' % (q_tags,))
+                    violations.append({'label': bad[0] + ''.join(' [%s]' % t for t in tags),
+                                       'input': _describe_layout(layout, q['importer'], q['stmt'], q['usage']),
+                                       'observed': '%s; jedi (%s at the %s): %r' % (bad[1], label, pos, shown),
+                                       'kind': '%s from %s at %s, expecting %s' % (q['form'], where, pos, want[0])})
+        sample = {'sys.path': layout['roots'], 'mode': layout['mode'], 'files': sorted(layout['files']),
+                  'oracle': [(q['importer'], q['stmt'], w[:3]) for q, w in zip(queries, answers)
+                             if w[0] in ('file', 'def', 'namespace', 'error')][:5]}
+        stats = {}
+        for q, w in zip(queries, answers):
+            k = '%s -> %s' % (q['form'], w[0] if w[0] != 'error' else w[1])
+            stats[k] = stats.get(k, 0) + 1
+    finally:
+        if oracle is not None:
+            oracle.p.kill()
+            oracle.p.wait()
+        shutil.rmtree(top, ignore_errors=True)
+    return evaluations, violations, [sample], stats
+
+
+def interpreter_sys_path():
+    """sys.path of a fresh interpreter of the environment (what Project(added_sys_path=...) extends)"""
+    env = dict(os.environ)
+    env.pop('PYTHONSTARTUP', None)
+    p = subprocess.run([sys.executable, '-c', 'import sys, json; print("SYS-PATH " + json.dumps(sys.path))'],
+                       capture_output=True, text=True, env=env, cwd=os.environ['STANDIN_TMP'], timeout=300)
+    lines = [l for l in p.stdout.splitlines() if l.startswith('SYS-PATH ')]
+    if p.returncode != 0 or not lines:
+        raise RuntimeError('C10 harness: cannot get sys.path of the interpreter: %s' % p.stderr[-500:])
+    return [x for x in json.loads(lines[-1][len('SYS-PATH '):]) if x != '']
+
+
 def run(repo, seed, tier):
     import multiprocessing as mp
-    lay = layouts(tier)
+    base = interpreter_sys_path()
+    lay = layouts(tier, seed)
+    n_generated = N_LAYOUTS.get(tier, N_LAYOUTS['quick'])
     with mp.get_context('fork').Pool(min(16, os.cpu_count() or 4), initializer=_init_worker) as pool:
+        gen = pool.map_async(check_generated, [(seed, i, tier, base) for i in range(n_generated)], chunksize=1)
         results = pool.map(check_layout, lay, chunksize=2)
-    evaluations = sum(r[0] for r in results)
-    violations = [v for r in results for v in r[1]]
-    samples = [x for r in results for x in r[2]][:3]
-    seen = {}
+        results_b = gen.get()
+    evaluations = sum(r[0] for r in results) + sum(r[0] for r in results_b)
+    violations = [v for r in results for v in r[1]] + [v for r in results_b for v in r[1]]
+    samples = [x for r in results for x in r[2]][:1] + [x for r in results_b for x in r[2]][:2]
+    stats = {}
+    for r in results_b:
+        for k, v in r[3].items():
+            stats[k] = stats.get(k, 0) + v
+    counts = {}
+    per_kind = {}
+    reported = []
+    # the smallest reproducers first
+    violations.sort(key=lambda v: len(v['input']))
     for v in violations:
-        seen.setdefault(v['label'], []).append(v)
-    uniq = [vs[0] for vs in seen.values()]
+        counts[v['label']] = counts.get(v['label'], 0) + 1
+        k = (v['label'], v.pop('kind', ''))
+        per_kind[k] = per_kind.get(k, 0) + 1
+        if per_kind[k] <= 3 and len(reported) < 60:
+            reported.append(v)
+    reported.sort(key=lambda v: (v['label'], len(v['input'])))
     return {'name': 'C10.import-resolution', 'contract': 'C10.import',
             'evaluations': evaluations, 'distinct_nontrivial': evaluations,
-            'rule': 'two sys.path roots in either order; node a in each root absent/module/package/namespace with child b '
+            'rule': 'A: two sys.path roots in either order; node a in each root absent/module/package/namespace with child b '
                     'absent/module/package; package __init__ empty or re-importing b; 9 import forms (absolute, aliased, '
-                    'from-import, relative level 1 and 2); oracle = the file the interpreter loads in a child process',
-            'samples': samples, 'violations': violations[:300],
-            'violation_counts': {k: len(v) for k, v in seen.items()}}
+                    'from-import, relative level 1 and 2); quick = seeded random half of the competing and third of the '
+                    'other layouts.  B: %d seeded random projects: 1-3 sys.path roots in random order, entries spelled with '
+                    'or without a trailing separator, given as Project(sys_path=), Project(added_sys_path=) or, for one root, as the '
+                    'directory of a default Project (smart_sys_path; then only absolute imports from the script in it); trees of '
+                    'dotted depth <= 4 over the name pool %r, each node module / package / namespace package / module '
+                    'plus directory of the same name; files define functions, classes and strings under pool names and '
+                    're-export names of children, earlier siblings, uncles and other packages (relative, absolute, star); '
+                    'per project <= %d sampled statements of the forms import T, import T as z, from P import N [as z], '
+                    'from P import *, from . import N, from ..M import N (every level up to the top package), relative '
+                    'star, issued from a script outside sys.path, a script in a root, and modules / __init__.py at every '
+                    'depth (the statement is appended to the real text of the file); infer() and '
+                    'goto(follow_imports=True) at the use, at the imported name and at the from-part.  Oracle = a child '
+                    'interpreter that executes the statement in the really imported importing module and describes the '
+                    'bound object (module __file__, namespace __path__, function code location, location carried by a '
+                    'class/string); ModuleNotFoundError of the queried module -> no module result; other ImportErrors '
+                    'carry no expectation.  No expectation either where only the history of the process decides: a '
+                    'package attribute and a same-named sub-module of it both bound during the run, sub-modules that a '
+                    'star import copies although no code binds them, statements that rebind a name of the importing '
+                    'file or import from the importing file itself.  Discrepancies that are decided by the order of two '
+                    'bindings of one name inside a file of the tree (star import after an explicit binding, nested star '
+                    'imports, from . import name after a binding of name, star-imported name vs sub-module of the same '
+                    'name, circular re-exports) are reported under the same labels with a suffix in square brackets.  Dotted name: every file that the interpreter loads '
+                    'under the name its path spells must get that name from jedi (full_name of a probe definition).'
+                    % (n_generated, POOL, N_QUERIES.get(tier, N_QUERIES['quick'])),
+            'samples': samples, 'violations': reported,
+            'violation_counts': counts, 'statement_outcomes': stats}
